@@ -904,6 +904,10 @@ def c20_tokens(es: dict) -> list:
                 style = ("gmx", "gmx_e", "repr", "g17", "int")[rs.randint(5)]
             if style == "int":
                 row.append(str(int(round(v))) + (".0" if c == 0 else ""))
+            elif es["numfmt"] == "mixed" and rs.random_sample() < 0.15:
+                # other spellings of a number every float parser accepts
+                row.append(["%.0f." % abs(v), ("%.3f" % (abs(v) % 1)).lstrip("0") or ".0", "+%.4f" % abs(v),
+                            "%.3E" % v, "%de2" % int(round(v % 97))][rs.randint(5)])
             else:
                 row.append(_fmt_number(v, style))
         if rows and es.get("dup_frac") and rs.random_sample() < es["dup_frac"]:
@@ -980,7 +984,8 @@ class PersistenceCheck(Check):
     def _gen_energy(self, rng, tier):
         es = gen_energy_spec(rng, fmt="xvg")
         es["numfmt"] = rng.choice(GROMACS_TOKEN_STYLES)
-        es["n_rows"] = rng.choice([1, 2, 3, 10, 50, rng.randint(1, 200)])
+        es["n_rows"] = rng.choice([1, 2, 3, 10, 50, rng.randint(1, 200), rng.randint(1, 200),
+                                   rng.choice([1000, 2500]) if tier == "thorough" or rng.random() < 0.2 else 77])
         ops = [{"op": "peer_write"},
                {"op": "read", "mode": self._mode(rng, tier), "hashseed": rng.randint(1, 2 ** 31)}]
         if rng.random() < 0.7:
